@@ -22,12 +22,17 @@ EXPLANATION = (
     "(e) Tree-wide: no function with a flow parameter pulls from the flow (the parameter or a lazy view of it: iter, islice, chain, zip, "
     "map, a generator expression, el.run(flow)) inside a try whose handler swallows an exception other than StopIteration; and "
     "flow_to_iter returns its argument unchanged only where it was found to have a next method.  "
+    "(f) Tree-wide: no flow-processing function applies a non-builtin callable to its flow through map/filter/itertools (C level: a "
+    "StopIteration of the callable would end the flow silently).  "
     "Does not decide the yielded values nor associativity for arbitrary user elements.")
 RULES = {
     "C01-a": "FOLD: Sequence.run = wrap(fold(el.run over self._data_seq forwards, wrap(flow))) on every path",
     "C01-b": "TYPESTATE: constructors store only elements with a callable run / the given first element; failures raise LenaTypeError",
     "C01-c": "Source.__call__ feeds first()/first into the tail and does not skip a non-empty tail",
     "C01-d": "flatten keeps element order",
+    "C01-f": "GENERATOR FRAME: no flow-processing function hands a callable to map/filter/itertools over its flow -- a user "
+             "callable is applied inside a Python generator, where an escaping StopIteration becomes RuntimeError instead of "
+             "silently ending the flow",
     "C01-e": "TRANSPARENT ERRORS: no element of lena pulls from its incoming flow inside a try whose handler swallows anything but "
              "StopIteration (the composition law needs an upstream exception to come out of the sequence as it is)",
 }
@@ -379,7 +384,48 @@ def check_transparent_errors(ctx):
         ctx.ok("C01-e", ("lena", "<tree>"), "%d flow-processing functions: no quiet handler covers a pull from the flow" % n)
 
 
+_C_MAPPERS = ("builtins.map", "builtins.filter", "itertools.starmap", "itertools.filterfalse", "itertools.takewhile",
+              "itertools.dropwhile", "itertools.accumulate", "itertools.groupby")
+
+
+def check_generator_frame(ctx):
+    """(val for val in flow if sel(val)) and filter(sel, flow) yield the same values -- until sel raises StopIteration (next() on a
+    helper iterator that ran out).  PEP 479 turns that into RuntimeError inside a generator; the C iterators let it through and
+    the consumer sees a regular end of the flow: everything after the failing value is lost without an error."""
+    res = ctx.res
+    n = 0
+    hits = 0
+    for mod, fn in ctx.tree.functions():
+        if "flow" not in A.func_params(fn):
+            continue
+        n += 1
+        lazy = {"flow"}
+        for st in A.walk_local(fn):
+            if isinstance(st, ast.Assign) and len(st.targets) == 1 and isinstance(st.targets[0], ast.Name) and isinstance(st.value, ast.Call) \
+                    and any(isinstance(x, ast.Name) and x.id in lazy for a in st.value.args for x in ast.walk(a)):
+                lazy.add(st.targets[0].id)
+        for c in A.walk_local(fn):
+            if isinstance(c, ast.Call) and (res.call_canon(c) or "") in _C_MAPPERS and len(c.args) >= 2:
+                over = [a for a in c.args[1:] if any(isinstance(x, ast.Name) and x.id in lazy for x in ast.walk(a))]
+                if res.call_canon(c) in ("itertools.accumulate", "itertools.groupby"):
+                    over = [a for a in c.args[:1] if any(isinstance(x, ast.Name) and x.id in lazy for x in ast.walk(a))] if (
+                        len(c.args) > 1 or c.keywords) else []
+                fnarg = c.args[0]
+                builtin_fn = isinstance(fnarg, ast.Name) and (res.canon(fnarg) or "").startswith("builtins.")
+                if over and not builtin_fn and not (isinstance(fnarg, ast.Constant) and fnarg.value is None):
+                    hits += 1
+                    ctx.violation("C01-f", c, "%s applies `%s` to the values of its flow through `%s`: when that callable raises StopIteration "
+                                  "the flow ends there as if it were exhausted (no RuntimeError as inside a generator), so "
+                                  "Sequence(..., this element, ...).run(flow) silently loses the rest of the flow and what follows "
+                                  "(a Sum, a Cache) reports a result for part of it" % (A.qualname(fn), A.short(fnarg, 30), A.short(c, 50)),
+                                  construct="c-mapper:%s" % A.qualname(fn))
+    ctx.instances_floor("C01-f", n, 35, "flow-processing functions")
+    if not hits:
+        ctx.ok("C01-f", ("lena", "<tree>"), "%d flow-processing functions: callables are applied in generator frames only" % n)
+
+
 def check(ctx):
+    check_generator_frame(ctx)
     check_transparent_errors(ctx)
     K.check_flow_to_iter(ctx, "C01-a", "Sequence.run and Source.__call__ promise an iterator whatever the input is, and elements "
                          "that take the flow in pieces (islice, next) see the beginning of a re-iterable again and again")
@@ -390,6 +436,8 @@ def check(ctx):
 
 
 VARIANTS = [
+    M("filter-run-builtin-filter", "lena/flow/filter.py", "        return (val for val in flow if self._selector(val))", "        return filter(self._selector, flow)", ["C01-f"]),
+    M("call-run-builtin-map", "lena/core/adapters.py", "        for val in flow:\n            yield self._el(val)\n", "        return map(self._el, flow)\n", ["C01-f"]),
     M("count-run-swallows-upstream-errors", "lena/flow/elements.py", "        except StopIteration:\n", "        except Exception:\n", ["C01-e"], nth=0),
     M("run-reversed", "lena/core/sequence.py", "        for el in self._data_seq:\n            flow = el.run(flow)", "        for el in reversed(self._data_seq):\n            flow = el.run(flow)", ["C01-a"]),
     M("run-skips-last", "lena/core/sequence.py", "        for el in self._data_seq:\n            flow = el.run(flow)", "        for el in self._data_seq[:-1]:\n            flow = el.run(flow)", ["C01-a"]),
